@@ -177,6 +177,30 @@ def chain(repo: Repo, chk: Check) -> None:
         loops.append(re.sub(r"\s+", " ", _norm_loop(n, var)))
     chk.result(len(set(loops)) == 1, "C12.chain", f"{CASTS}:sibling-agreement", repo.func(CASTS, "get_source_operand").where,
                "both chain walks are the same code", f"the two chain walks differ: {loops}")
+    # the "chain ends in its root's type" shortcut hands out a value of that type
+    f = repo.func(CASTS, "RealizeMemrefCasts.match_and_rewrite")
+    fl = Flow(f, repo)
+    opn = op_param(f)
+    w = [n for n in ast.walk(f.node) if isinstance(n, ast.While) and ".source" in ast.unparse(n.test)]
+    root = w[0].body[0].targets[0].id if w and isinstance(w[0].body[0], ast.Assign) and isinstance(w[0].body[0].targets[0], ast.Name) else None
+    n_sc = 0
+    for s_ in fl.calls("replace_all_uses_with"):
+        if not s_.reachable or not s_.node.args:
+            continue
+        eq = [x for x in s_.facts if x.kind == "atom" and isinstance(x.expr, ast.Compare) and len(x.expr.ops) == 1 and isinstance(x.expr.ops[0], ast.Eq)
+              and norm.contains(x.expr, T(f"{opn}.dest.type")) and root is not None and norm.contains(x.expr, T(f"{root}.source.type"))]
+        if not eq:
+            continue
+        n_sc += 1
+        arg = s_.node.args[0]
+        to_root = root is not None and norm.match(T(f"{root}.source"), arg) is not None
+        typed = isinstance(arg, ast.IfExp) and norm.any_match([f"{opn}.source.type == $t", f"$t == {opn}.source.type"], arg.test) is not None and norm.match(
+            T(f"{opn}.source"), arg.body) is not None and root is not None and norm.match(T(f"{root}.source"), arg.orelse) is not None
+        chk.result(to_root or typed, "C12.chain", f"{f.key}:roundtrip-shortcut", s_.where(),
+                   "a chain that ends in its root's type is replaced by a value of that type (the root, or the direct source when it has the type)",
+                   f"when the chain ends in its root's type the uses are redirected to `{ast.unparse(arg)}`: for L3 -> L1 -> L3 that is the L1 intermediate, not the root")
+    if n_sc == 0:
+        chk.observe("RealizeMemrefCasts has no equal-type shortcut on this tree")
 
 
 # --------------------------------------------------------------------------- L1 operands
